@@ -66,6 +66,37 @@ fn o11_3_size_one_cell() {
     std::mem::forget(settings);
 }
 
+//@ harness: o11_3_size_grid props=C11,C12 tier=quick obl=O11.3 timeout=600 mem=10
+//@ desc: CellBuffer with exactly one occupied cell (x, y <= 1000) and every scale of the property's grid {0.5, 1, 3, 8, 10, 20, 37.5} (chosen symbolically): get_size = (scale*(x+2), 2*scale*(y+2)) exactly - the same statement as o11_3_size_one_cell on the named scales only, so that it is also decided quickly on implementations that convert the scale to an integer or round the result
+//@ encodes: CellBuffer::get_size, CellBuffer::bounds
+#[kani::proof]
+#[kani::stub(std::io::_print, crate::kstub::noop_print)]
+#[kani::unwind(4)]
+fn o11_3_size_grid() {
+    let si: u8 = kani::any();
+    kani::assume(si < 7);
+    let s: f32 = match si {
+        0 => 0.5,
+        1 => 1.0,
+        2 => 3.0,
+        3 => 8.0,
+        4 => 10.0,
+        5 => 20.0,
+        _ => 37.5,
+    };
+    let settings = settings_with_scale(s);
+    let x = any_in(0, 1000);
+    let y = any_in(0, 1000);
+    let mut cb = CellBuffer::new();
+    cb.insert(Cell::new(x, y), 'x');
+    let (w, h) = cb.get_size(&settings);
+    kani::cover!(si == 0 && x == 13, "scale 0.5 with an odd width");
+    assert!(w == s * (x + 2) as f32, "O12.1 canvas width = scale x (last column + 2)");
+    assert!(h == 2.0 * s * (y + 2) as f32, "O12.1 canvas height = 2 x scale x (last row + 2)");
+    std::mem::forget(cb);
+    std::mem::forget(settings);
+}
+
 // NOTE (tried, out of reach): get_size on a CellBuffer with two or three occupied cells at
 // fixed positions ran out of 20 / 30 GB (BTreeMap insertion); that the canvas follows the
 // right-most / bottom-most cell is therefore not decided, only the one-cell formula is.
